@@ -35,6 +35,13 @@ class _Complement(ast.NodeTransformer):
                 return r
         return node
 
+    def visit_IfExp(self, node):
+        # `a if not c else b`  ->  `b if c else a`
+        self.generic_visit(node)
+        if isinstance(node.test, ast.UnaryOp) and isinstance(node.test.op, ast.Not):
+            return ast.IfExp(test=node.test.operand, body=node.orelse, orelse=node.body)
+        return node
+
     def visit_Call(self, node):
         self.generic_visit(node)
         if isinstance(node.func, ast.Attribute) and node.func.attr == "logical_not" and len(node.args) == 1 and not node.keywords:
@@ -78,7 +85,9 @@ def _call_writes(repo):
         except Exception:
             return ()
         out = set()
-        for prm in sm.writes:
+        for prm, how in sm.writes.items():
+            if _container_only_write(repo, callee, prm, how):
+                continue
             a = b.get(prm)
             while isinstance(a, (ast.Subscript, ast.Attribute)):
                 a = a.value
@@ -87,6 +96,29 @@ def _call_writes(repo):
         return out
 
     return cw
+
+
+def _container_only_write(repo, callee, prm: str, how: str) -> bool:
+    """the summary's write is a container-level mutator (`.append()`, ...) on a
+    local list that merely CONTAINS the parameter (`acc = [p]; acc.append(..)`):
+    the parameter's own object is not changed"""
+    import re
+
+    m = re.match(r"^(\S+):(\d+) \.(\w+)\(\) works in place", how)
+    if not m:
+        return False
+    line = int(m.group(2))
+    for c in ast.walk(callee.node):
+        if isinstance(c, ast.Call) and getattr(c, "lineno", -1) == line and isinstance(c.func, ast.Attribute) and c.func.attr == m.group(3):
+            r = c.func.value
+            while isinstance(r, (ast.Subscript, ast.Attribute)):
+                r = r.value
+            if isinstance(r, ast.Name) and r.id != prm:
+                # the receiver is another local: was it bound to a display containing the parameter?
+                for s_ in ast.walk(callee.node):
+                    if isinstance(s_, ast.Assign) and any(isinstance(t, ast.Name) and t.id == r.id for t in s_.targets) and isinstance(s_.value, (ast.List, ast.Tuple, ast.Set)) and any(isinstance(e, ast.Name) and e.id == prm for e in s_.value.elts):
+                        return True
+    return False
 
 
 def expander(repo) -> Expander:
@@ -475,7 +507,17 @@ def same_selection(alts_list) -> bool:
 
 
 # ------------------------------------------------------------ path evaluation
-from engine.patheval import PathEval, Path, RAISE, text as ptext
+from engine.patheval import PathEval, Path, RAISE, BREAK, CONTINUE, text as ptext
+
+
+def block_paths(fi: FunctionInfo, stmts, bindings: Optional[Dict[str, object]] = None) -> List[Path]:
+    """paths through a statement list of `fi` (a loop body: break/continue end a path)"""
+    b = {k: (v if isinstance(v, ast.AST) else ast.Constant(v)) for k, v in (bindings or {}).items()}
+    pe = PathEval(fi.node, b, post=complement_norm)
+    out = pe.run(stmts)
+    if pe.truncated:
+        raise AnalysisError(f"too many paths through a block of {fi.qualname}")
+    return out
 
 
 def paths(fi: FunctionInfo, bindings: Optional[Dict[str, object]] = None) -> List[Path]:
